@@ -1,6 +1,7 @@
 """C03 - exact sample-index <-> time conversion (exhaustive grids through the real C functions)."""
 
 import datetime
+import os
 
 import numpy as np
 
@@ -91,9 +92,60 @@ def run_equiv(job):
     return part
 
 
+LOCK_SCRIPT = r"""
+import sys, numpy as np
+import digital_rf as drf
+for k in (1, 10**9, 10**11, 46478000000 // 3):
+    drf.get_unix_time(k, 10, 3)
+import os; os.makedirs(sys.argv[1])
+w = drf.DigitalRFWriter(sys.argv[1], np.int16, 2, 1000, 1394333998 * 10, 10, 1, "u", 0, False, False, 1, False, False)
+w.rf_write(np.arange(25, dtype=np.int16))
+w.rf_write_blocks(np.arange(9, dtype=np.int16), [40, 52], [0, 4])
+w.close()
+"""
+
+
+def run_lock(job):
+    """The conversion (and every file/subdirectory name) goes through libc gmtime(), whose result lives in one
+    static buffer: results are only a function of the index as long as every entry into the C library is
+    serialised by the interpreter lock.  One subprocess under native/gilprobe.c reports, for every gmtime()
+    call made from inside the extension module, whether the calling thread held that lock."""
+    import subprocess
+    import sys
+
+    part = core.new_part()
+    st = stage.activate()
+    top = core.new_scratch()
+    try:
+        outp = os.path.join(top, "probe.out")
+        env = dict(os.environ, LD_PRELOAD=os.path.join(st, "gilprobe.so"), GILPROBE_OUT=outp,
+                   PYTHONPATH=st + os.pathsep + os.environ.get("PYTHONPATH", ""))
+        r = subprocess.run([sys.executable, "-c", LOCK_SCRIPT, os.path.join(top, "ch")], env=env, capture_output=True, text=True, timeout=300)
+        if r.returncode != 0 or not os.path.exists(outp):
+            raise core.HarnessError("lock probe failed: rc=%s %s" % (r.returncode, r.stderr[-2000:]))
+        for ln in open(outp):
+            fn, calls, unheld = ln.split()
+            part["evaluations"] += int(calls)
+            part["transitions"] += int(calls)
+            part["outcomes"]["%s_calls_from_extension:%s" % (fn, "all_under_interpreter_lock" if int(unheld) == 0 else "some_without_lock")] += 1
+            if int(calls) == 0:
+                raise core.HarnessError("lock probe saw no %s call from the extension" % fn)
+            if int(unheld):
+                part["violations"].append(core.Violation(
+                    {"class": "non_reentrant_conversion_outside_interpreter_lock", "fn": fn}, {"job": list(job)},
+                    "%s of %s %s() calls made by the extension module ran without the interpreter lock: concurrent callers "
+                    "share its static result buffer, so the returned calendar time is no longer a function of the index" % (unheld, calls, fn)))
+    finally:
+        core.rm(top)
+    part["traces"] += 1
+    return part
+
+
 def run_job(job):
     if job[0] == "equiv":
         return run_equiv(job)
+    if job[0] == "lock":
+        return run_lock(job)
     part = core.new_part()
 
     def bad(key, case, detail):
@@ -226,13 +278,14 @@ def main(tier):
               "edges; (b) complete product of a magnitude grid: %d numerators up to 2^32-1 x %d denominators up to 1e9 x ~%d "
               "indices each (multiples of n +-{0,1,2}, residues n-1 and n//2, seconds 0..year 9999, 2^32, 2^53, 2^62, 2^63-1, "
               "the last index before year 9999), monotonicity on the sorted grid, +-1 ps perturbations for the inverse, and the "
-              "Python wrapper digital_rf.get_unix_time on a subset. A case is non-trivial/distinct per (n,d) pair.")
+              "Python wrapper digital_rf.get_unix_time on a subset. A case is non-trivial/distinct per (n,d) pair. (c) one probe run: "
+              "every gmtime() call the extension makes (conversion, file naming) is checked to happen under the interpreter lock.")
         % ((48, 4095, 26, 15, 250) if tier == "quick" else (128, 16383, 35, 23, 4200)),
         assumptions=["values of k strictly between grid points at large magnitude are not covered",
                      "exact model: sec=k*d//n, ps=((k*d) mod n)*1e12//n, ceil((s*1e12+p)*n/(d*1e12)) in Python integers"],
     )
     stage.activate()
-    jobs = small_jobs(tier) + mag_jobs(tier) + equiv_jobs(tier)
+    jobs = small_jobs(tier) + mag_jobs(tier) + equiv_jobs(tier) + [("lock",)]
     rot = core.seed() % len(jobs)
     jobs = jobs[rot:] + jobs[:rot]
     for part in core.pmap(run_job, jobs, chunksize=8):
